@@ -285,6 +285,79 @@ def history_binding(chk, tier):
             chk.violation(dict(kind=mm['what']), dict(input=r['input'], ground=g, info=mm))
 
 
+def true_case(args):
+    """the numeric clause of C02 itself: entries between pulses at least 2.5 segment lengths apart against the published
+       formulation with the TRUE kernel (exp(-jkR)/R, R^2 = distance^2 + radius^2 above the thin-wire limit, distance^2
+       below it), integrated numerically on the geometry of the specification's pulse table; 1e-4 of the magnitude of
+       the potential terms of the entry"""
+    rec, ground, sd, thick = args
+    out = dict(mism=[], exc=None, n=0, maxdev=0.0)
+    if rec.get('reject') or not rec.get('pulses'):
+        return out
+    rnd = random.Random('%s/true/%s' % (sd, C.h(rec['input'])))
+    try:
+        lam = 10.0
+        f = 299.8 / lam
+        unit = lam * rnd.choice([0.03, 0.05, 0.08])
+        radius = lam * (rnd.choice([2e-4, 5e-4]) if thick else rnd.choice([1e-5, 4e-5]))
+        if thick == 'fat':
+            # segments of a few radii: the radius term of the thick-wire kernel is visible 2.5 segments away
+            unit = lam * 0.004
+            radius = lam * rnd.choice([3e-4, 6e-4])
+        m, geo = L.build_pair(rec, rnd, ground, f, unit, radius, taper_prob=0.0 if thick == 'fat' else 0.5)
+        if len(m.pulses) != len(rec['pulses']):
+            out['mism'].append(dict(what='pulse-count'))
+            return out
+        E, S, M = geo.true_matrix(2 * math.pi / lam, 1e-4 * lam)
+        if not M.any():
+            return out
+        m.compute_impedance_matrix()
+        Z = np.array(m.Z)
+        dev = np.where(M, np.abs(Z - E) / np.where(S > 0, S, 1.0), 0.0)
+        out['n'] = int(M.sum())
+        out['maxdev'] = float(dev.max())
+        if dev.max() > 1e-4:
+            i, j = np.unravel_index(dev.argmax(), dev.shape)
+            kinds = [p['kind'] for p in rec['pulses']]
+            out['mism'].append(dict(what='matrix-entry-true-kernel', err=float(dev.max()), obs=int(i), src=int(j),
+                                    obs_kind=kinds[i], src_kind=kinds[j], thick=thick, nbad=int((dev > 1e-4).sum())))
+    except Exception as e:      # noqa
+        import traceback
+        out['exc'] = repr(e) + traceback.format_exc()[-600:]
+    return out
+
+
+def true_kernel_part(chk, tier, alljobs):
+    rnd = C.rng('c02-true')
+    frac = 0.03 if tier == 'quick' else 0.02
+    js = []
+    for job in alljobs:
+        rec = job[0]
+        big = len(rec.get('pulses') or []) >= 4
+        if len(job) > 3:                                   # the long (many-segment) records: always, thick and thin
+            if job[3] < 3:
+                js.append((rec, job[1], job[2], [True, False, 'fat'][job[3]]))
+        elif big and rnd.random() < frac:
+            js.append((rec, job[1], job[2], rnd.choice([True, False, 'fat'])))
+    worst = 0.0
+    npairs = 0
+    for j, o in zip(js, C.parallel_map(true_case, js, chunksize=4)):
+        if not o['n'] and not o['mism'] and not o['exc']:
+            continue
+        chk.case(dict(true=j[0]['input'], g=j[1], t=j[3]), True,
+                 sample=dict(true_kernel=True, input=j[0]['input'], ground=j[1], thick=j[3], pairs=o['n'], max_deviation=o['maxdev']),
+                 n=max(1, o['n']))
+        worst = max(worst, o['maxdev'])
+        npairs += o['n']
+        if o['exc']:
+            chk.violation(dict(kind='exception', exc=o['exc'].split('(')[0]), dict(input=j[0]['input'], ground=j[1], exc=o['exc']))
+        for mm in o['mism']:
+            chk.violation(dict(kind=mm['what'], src_kind=mm.get('src_kind'), thick=mm.get('thick')),
+                          dict(input=j[0]['input'], ground=j[1], info=mm, spec=j[0]))
+    chk.cov['true_kernel_pairs_compared'] = npairs
+    chk.cov['true_kernel_worst_deviation'] = worst
+
+
 def jobs(chk, tier):
     for r, g in L.long_records(chk):
         for k in range(6 if tier == 'quick' else 40):
@@ -297,14 +370,16 @@ def jobs(chk, tier):
 def run(tier):
     chk = C.Check(PID, tier, 'model_checking')
     chk.assumptions = [
-        'sub-statement only: the 1e-4 agreement of the true kernel integrals with adaptive quadrature (Gauss order selection, exact-kernel and small-radius branches inside psi / integral_i2_i3) is NOT decided; a change confined to the numerics of psi is invisible to this check',
+        'the 1e-4 clause itself (true kernel, pulses at least 2.5 segment lengths apart) is decided on the long records and a seeded sample of the TLC configurations by numerical integration (40-point Gauss-Legendre per straight piece) of exp(-jkR)/R on the geometry of the SPECIFICATION pulse table; the structure of every entry (all pairs, all fill optimisations) on every configuration with the surrogate kernel; self and near terms of the true kernel (exact-kernel branch) are outside the property',
         'TLC 1.8 on spec/Topology.tla supplies the pulse table; harness/lattice.py evaluates the MININEC-3 formulation on it with the surrogate kernel and seeded lattice coordinates',
         'Mininec.psi is replaced in the harness process only (no change to the repository); the replacement honours the calling contract of psi (length = |scale| * seg_len of the half selected by the sign of scale)',
         'radius >= 1e-4 wavelength, so every self term goes through psi (the closed-form small-radius branch is outside this check)']
     fill_plan_binding(chk, tier)
     history_binding(chk, tier)          # real kernel: before the surrogate is installed
+    alljobs = list(jobs(chk, tier))
+    true_kernel_part(chk, tier, alljobs)
     L.install_surrogate()
-    for job, o in C.parallel_imap(check_record, jobs(chk, tier), chunksize=16):
+    for job, o in C.parallel_imap(check_record, alljobs, chunksize=16):
         r, g = job[0], job[1]
         if not r.get('pulses'):
             continue
